@@ -252,7 +252,8 @@ def add(*states, amplitudes=None, **kwargs) -> MpsMpoOBC:
             ten = state[site]
             if site == (0, 0) and amplitudes is not None:
                 ten = amplitudes[n] * ten
-            tens[n * t, n * l, n * b, n * r] = ten
+            key = (n * t, n * l, n * b, n * r)
+            tens[key] = tens[key] + ten if key in tens else ten  # a site without neighbours (1x1 lattice): tensors add up
         phi[site] = block(tens, common_legs=4)
     return phi
 
